@@ -13,6 +13,7 @@ import (
 	"github.com/google/go-eventlog/proto/state"
 	"github.com/google/go-tdx-guest/rtmr"
 	"github.com/google/go-tdx-guest/validate"
+	"github.com/google/go-tdx-guest/verify"
 	"verif/sim/core"
 	"verif/sim/world"
 )
@@ -159,10 +160,21 @@ func c18Run(r *core.Run) {
 	r.Eventf("world %s", w.Describe())
 	q := w.Quote
 
+	// in every third run all calls go through ONE long-lived verification options value (its flags, pool and
+	// getter are set for each call, as a service re-using its configuration object would)
+	var longOpts *verify.Options
+	if r.Index%3 == 1 {
+		longOpts = &verify.Options{}
+		r.Probe("calls_through_one_long_lived_options_value")
+	}
 	call := func(qq *world.Quote, vopts *validate.Options, level int, pool bool, log []byte) (*state.FirmwareLogState, core.Outcome) {
 		o := worldOpts(w, level)
 		if !pool {
 			o.TrustedRoots = world.Pool(world.NewPKI(t, "X", w.Epoch, w.A).Root)
+		}
+		if longOpts != nil {
+			longOpts.GetCollateral, longOpts.CheckRevocations, longOpts.Getter, longOpts.TrustedRoots, longOpts.Now = o.GetCollateral, o.CheckRevocations, o.Getter, o.TrustedRoots, o.Now
+			o = longOpts
 		}
 		var st *state.FirmwareLogState
 		out := callOnNet(o.Getter, func() error {
@@ -307,6 +319,42 @@ func c18Run(r *core.Run) {
 		w.Publish()
 		r.Fault("gate:verification:"+cf.name, true)
 		r.State("verify-gate %s", cf.name)
+		r.EndItem()
+	}
+	// --- a quote that fails verification while a CRL cannot be had: "could not check revocation" is not
+	// "verified" — whatever a caller makes of an unreachable CRL for a good quote, a bad one yields no state
+	nfaults := []struct {
+		name string
+		set  func()
+	}{
+		{"pck-crl-endpoint-down", func() { w.PCS.PckCrl[w.CAID] = &world.Endpoint{Err: fmt.Errorf("connection refused")} }},
+		{"root-crl-endpoint-down", func() {
+			for u := range w.PCS.ByURL {
+				w.PCS.ByURL[u] = &world.Endpoint{Err: fmt.Errorf("connection refused")}
+			}
+		}},
+		{"pck-crl-garbage", func() { w.PCS.PckCrl[w.CAID].Body = t.Bytes(60) }},
+	}
+	for _, nf := range nfaults {
+		if !r.Item("verify-gate:forged-quote+" + nf.name) {
+			continue
+		}
+		x := q.Clone()
+		switch t.Draw(3) {
+		case 0:
+			x.SignBody(fk)
+		case 1:
+			x.MrConfigID[t.Draw(48)] ^= 1 << t.Draw(8) // changed, not re-signed
+		default:
+			x.SignQE(fk)
+		}
+		nf.set()
+		gateFail("verify-gate:forged-quote+"+nf.name, "verification-gate:forged-quote+"+nf.name, "the quote does not pass verification (forged) and a CRL cannot be obtained ("+nf.name+")", x, noPolicy, O2, true)
+		// and the honest quote is not verified either when its revocation status cannot be established
+		gateFail("verify-gate:honest-quote+"+nf.name, "verification-gate:honest-quote+"+nf.name, "revocation checking is on and a CRL cannot be obtained ("+nf.name+"): the quote did not pass verification under the given options", q, noPolicy, O2, true)
+		w.Publish()
+		r.Fault("gate:verification:"+nf.name, true)
+		r.State("verify-gate forged+%s", nf.name)
 		r.EndItem()
 	}
 	// the honest quote passes the gate with collateral and revocation checking on as well
@@ -508,7 +556,7 @@ func init() {
 	register(&core.Check{
 		ID:    "C18",
 		Level: "fault_enumeration",
-		Rule: "per run one seeded world whose platform reports the sample quote's RTMRs, certified by a generated PKI; ParseCcelWithTdQuote with the repository's sample CCEL under: the honest control (no policy / full matching policy), 9 verification-gate faults (foreign-key signatures, broken binding, unsigned changes, untrusted root, revocation without collateral) each with signature checking alone and with collateral / revocation checking on (in half of the runs over a network whose fetches take 1 ms .. 11 s of simulated time), 4 faults in what the collateral says (leaf / intermediate revoked among unordered CRL entries, TCB level OutOfDate, QE level Revoked), 17 policy-gate faults (each expectation off by one bit / one step, nil policy) each in the full policy and in a sparse one (tape-chosen other expectations unset, unset RTMR entries keeping their place), every failing gate also with an empty, absent and cut event log, EVERY single-bit change of RTMR0..3 in validly re-signed quotes (quick: 4 runs tile the 1536 bits; thorough: all per world) and 6 digest flips inside the log. " +
+		Rule: "per run one seeded world whose platform reports the sample quote's RTMRs, certified by a generated PKI; ParseCcelWithTdQuote with the repository's sample CCEL under: the honest control (no policy / full matching policy), 9 verification-gate faults (foreign-key signatures, broken binding, unsigned changes, untrusted root, revocation without collateral) each with signature checking alone and with collateral / revocation checking on (in half of the runs over a network whose fetches take 1 ms .. 11 s of simulated time), 4 faults in what the collateral says (leaf / intermediate revoked among unordered CRL entries, TCB level OutOfDate, QE level Revoked), forged and honest quotes while a CRL cannot be obtained; in every third run all calls go through one long-lived options value, 17 policy-gate faults (each expectation off by one bit / one step, nil policy) each in the full policy and in a sparse one (tape-chosen other expectations unset, unset RTMR entries keeping their place), every failing gate also with an empty, absent and cut event log, EVERY single-bit change of RTMR0..3 in validly re-signed quotes (quick: 4 runs tile the 1536 bits; thorough: all per world) and 6 digest flips inside the log. " +
 			"distinct = gate fault name / (register, bit-in-byte)",
 		Exhaustive: true,
 		Assumptions: []string{
@@ -524,6 +572,6 @@ func init() {
 			return 12
 		},
 		Run:       c18Run,
-		MustProbe: []string{"honest_combination_returns_state", "measured_rtmr_bitflip_resigned", "log_digest_bitflip", "log_extended_with_rtmr3_event", "rtmr3_measured_bitflip", "failing_gate_with_other_event_logs"},
+		MustProbe: []string{"honest_combination_returns_state", "measured_rtmr_bitflip_resigned", "log_digest_bitflip", "log_extended_with_rtmr3_event", "rtmr3_measured_bitflip", "failing_gate_with_other_event_logs", "calls_through_one_long_lived_options_value"},
 	})
 }
